@@ -235,7 +235,32 @@ class Comparer:
         return ast.dump(node)
 
     # ------------------------------------------------------------------ symbolic execution
+    _PLAIN_CALLS = {'len', 'min', 'max', 'abs', 'range', 'xrange', 'zip', 'enumerate', 'float', 'int', 'bool', 'sum', 'sorted', 'list',
+                    'tuple', 'fmin', 'fmax', 'fabs', 'sqrt', 'isinstance', 'print', 'round', 'any', 'all', 'reversed', 'slice', 'str'}
+
+    def _escaping_arrays(self, st, env: Env, side: Side):
+        """A locally allocated array (or a tuple of such arrays kept in a local) that is handed to a helper function of the
+        package whose body was not folded into this one: the stores it makes are not visible here - the comparison of the
+        two sides' stores cannot be decided."""
+        for n in ast.walk(st):
+            if isinstance(n, ast.Call) and isinstance(n.func, ast.Name) and n.func.id not in self._PLAIN_CALLS \
+                    and n.func.id not in env.call_adapters:
+                for a in list(n.args) + [k.value for k in n.keywords]:
+                    names = [x.id for x in ast.walk(a) if isinstance(x, ast.Name)] if isinstance(a, (ast.Name, ast.Tuple, ast.List)) else []
+                    for nm in names:
+                        cn = env.cn(nm)
+                        if ('n', cn) in env.lens and cn in self._allocated.get(id(side), set()) or cn in self._bundles.get(id(side), set()):
+                            raise Inconclusive(f"{self.title}: the locally allocated array `{nm}` is handed to `{n.func.id}(...)` at "
+                                               f"{self.loc(side, st)}; what that helper stores into it is not visible in this function")
+
     def exec_simple(self, st, env: Env, reg: Region, side: Side):
+        if not hasattr(self, '_allocated'):
+            self._allocated, self._bundles = {}, {}
+        self._escaping_arrays(st, env, side)
+        if isinstance(st, ast.Assign) and len(st.targets) == 1 and isinstance(st.targets[0], ast.Name) \
+                and isinstance(st.value, (ast.Tuple, ast.List)) and st.value.elts \
+                and all(isinstance(e, ast.Name) and env.cn(e.id) in self._allocated.get(id(side), set()) for e in st.value.elts):
+            self._bundles.setdefault(id(side), set()).add(env.cn(st.targets[0].id))
         if isinstance(st, ast.Assign):
             for tgt in st.targets:
                 self._assign(tgt, st.value, env, reg, side, st)
@@ -277,6 +302,9 @@ class Comparer:
             cn = env.cn(tgt.id)
             sa = C.single_atom(val) if C.is_poly(val) else val
             if sa is not None and sa[0] == 'alloc':
+                if not hasattr(self, '_allocated'):
+                    self._allocated, self._bundles = {}, {}
+                self._allocated.setdefault(id(side), set()).add(cn)
                 reg.allocs[cn] = (sa[1], sa[2], st, sa[3] if len(sa) > 3 else ())
                 env.lens[('n', cn)] = sa[2]
                 env.unset(tgt.id)
